@@ -37,7 +37,7 @@ CONSTANTS MaxCipher,   \* 2^14 + 256: largest TLSCiphertext.length (RFC 8446 5.2
 VARIABLES cph,     \* observer, client->server: "start" | "app"
           sph,     \* observer, server->client: "start" | "sh" | "ccs" | "app"
           chsid,   \* session id of the ClientHello seen
-          cfgName, \* configured server name of this connection
+          cfgName, \* server name drawn for the session of this connection (AlternativeNames + ServerName)
           cfgRand, \* TRUE: the name is generated per connection
           bad,     \* "none" or the key of the first rule broken
           cst,     \* sender model, client endpoint: "new" | "hello" | "ready"
@@ -125,7 +125,7 @@ Blank == [type |-> 0, vmaj |-> 3, vmin |-> 3, len |-> 1, complete |-> TRUE, hs |
 CHRec(sid, name) ==
   [Blank EXCEPT !.type = 22, !.vmin = 1, !.len = 517, !.hs = 1, !.consistent = TRUE, !.ext_ok = TRUE,
                 !.sidlen = 32, !.sid = sid, !.has_sni = TRUE, !.sni_ok = TRUE, !.sni = name,
-                !.sni_name = TRUE, !.ks_ok = TRUE, !.x25519 = 32]
+                !.sni_name = (name # "random"), !.ks_ok = TRUE, !.x25519 = 32]   \* the bare keyword is no host name
 
 \* server/TLSAux.go:164-202
 SHRec(sid) ==
@@ -143,10 +143,20 @@ SenderInit ==
   /\ bad = "none" /\ cst = "new" /\ sst = "new"
   /\ nfr = [d \in {"c2s", "s2c"} |-> 0]
 
+\* cfgName is the name DRAWN for this session (cmd/ck-client seshMaker: one of AlternativeNames + ServerName,
+\* AuthInfo.MockDomain); the keyword "random" (client/TLS.go:126, decided per session on the drawn name) stands
+\* for a freshly generated host name.  Deviation RandomFlagFromServerName: the decision is taken once from
+\* ServerName instead (rawRand = ServerName is the keyword, independent of what was drawn): a drawn alternative
+\* is replaced by a generated name, a drawn keyword goes out literally.
+SniOnWire(rawRand) ==
+  IF "RandomFlagFromServerName" \in Dev
+  THEN (IF rawRand THEN "qwfp.com" ELSE cfgName)
+  ELSE (IF cfgRand THEN "qwfp.com" ELSE cfgName)
+
 ClientHello ==
   /\ cst = "new"
-  /\ \E sid \in {"sidA", "sidB"} :
-       Emit("c2s", CHRec(sid, IF cfgRand THEN "qwfp.com" ELSE cfgName))
+  /\ \E sid \in {"sidA", "sidB"}, rawRand \in BOOLEAN :
+       Emit("c2s", CHRec(sid, SniOnWire(rawRand)))
   /\ cst' = "hello" /\ UNCHANGED <<conf, sst, nfr>>
 
 \* the reply is one Write of three records; the tap sees them one after the other
